@@ -130,6 +130,12 @@ def bind_fs(it, fr):
     for o in cands:
         if isinstance(o, VObj) and isinstance(o.fields.get("_fs"), VObj):
             it.ctx.fs = o.fields["_fs"]
+            a = o.fields.get("args")
+            if isinstance(a, VObj):
+                # aliases so that a counterexample carries the command-line options (read by replay/c05_replay.py)
+                for k in ("cwd", "output_file", "accept_file"):
+                    if k in a.fields:
+                        fr.locals["_in_" + k] = a.fields[k]
             return
     raise OutOfSubset("no ghost filesystem in the pre-state")
 
@@ -668,6 +674,10 @@ CONTRACTS = [
              note="over the contracts of _handle_directory and _write_directory: what the first establishes about the "
                   "destination (absolute, normalised, no trailing separator) is what the second requires for confinement"),
 ]
+
+for _c in CONTRACTS:
+    if not _c.target.startswith("lemma:"):
+        _c.replay = {"driver": "c05_replay:run"}
 
 HELPERS = {f"{RECV}:Receiver._decide_destname", f"{RECV}:Receiver._remove_existing", f"{RECV}:Receiver._ask_permission",
            f"{RECV}:Receiver._extract_file"}
